@@ -11,6 +11,7 @@ package mongo
 // of tnext over those statements, and a statement whose row says -1 is rejected before a
 // pipeline is returned.
 //@ func (*Compiler).Compile
+//@   vars comp stmts opts unsupportedOps gs cmpl cmpl procs query startCollection lastType markTypes aggTypes vertCol edgeCol gs stmt stmt stmt stmt stmt stmt stmt stmt stmt stmt stmt stmt stmt stmt stmt stmt stmt ids ids labels labels labels labels labels labels whereExpr matchStmt labels ilabels i v has whereExpr matchStmt ids iids i v has whereExpr matchStmt hasKeys keys key fields keys match f namespace k err mark selection mark f fields includeFields excludeFields f exclude namespace fieldSelect v v v aggNames a ok aggs a agg field stmt agg field stmt agg field stmt percentiles p pName percentile agg field stmt stmt agg field stmt bsonSize err
 //@   property C14
 //@   option prelude=typing
 //@   option load=gripql,gdbi,engine/core
@@ -58,6 +59,7 @@ package mongo
 
 // convertHasExpression only reads the expression it translates.
 //@ func convertHasExpression
+//@   vars stmt not output cond val lims ok val lims ok val lims ok and andRes e or orRes e notRes
 //@   property C14
 //@   option load=gripql
 //@   trusted
